@@ -174,11 +174,50 @@ class DType(Sym):
         return SInt(ISZ(self.t))
 
 
-class Rows(Sym):
-    """numpy array of k rows; row j has value val(j); shape (k,)+tail"""
+COLMAJ = z3.Function('colmajor_row', I, I, I)    # (array id, j) -> value of "row" j of the column-major byte image of the array, read back row-major
 
-    def __init__(self, k, val, tail, dtype):
+
+class Flags:
+    """ndarray.flags of a Rows proxy"""
+
+    def __init__(self, a):
+        self._a = a
+
+    def _get(self, k):
+        k = str(k).upper()
+        if k in ('C_CONTIGUOUS', 'C', 'CONTIGUOUS'):
+            return SBool(self._a.cc)
+        if k in ('F_CONTIGUOUS', 'F', 'FORTRAN'):
+            return SBool(self._a.fc)
+        if k in ('FNC',):
+            return SBool(z3.And(self._a.fc, z3.Not(self._a.cc)))
+        if k in ('FORC',):
+            return SBool(z3.Or(self._a.fc, self._a.cc))
+        raise OutOfSubset('ndarray.flags[%r]' % (k,))
+
+    def __getitem__(self, k):
+        return self._get(k)
+
+    def __getattr__(self, k):
+        if k.startswith('_'):
+            raise AttributeError(k)
+        return self._get(k)
+
+
+class Rows(Sym):
+    """numpy array of k rows; row j has LOGICAL value val(j) (what a[j] shows, whatever the memory layout); shape (k,)+tail.
+    Memory layout: cc = C-contiguous, fc = Fortran-contiguous (symbolic for the batches a caller passes; a transposed view or
+    np.asfortranarray gives fc and not cc, a strided view x[::2] neither, a 1-d / one-row-of-width-1 array both)."""
+    _ids = [100]             # ids of derived arrays (reset per path by the contracts' setup); argument arrays carry explicit ids
+
+    def __init__(self, k, val, tail, dtype, cc=None, fc=None, aid=None):
         self.k, self.val, self.tail, self.dt, self.t = k, val, tail, dtype, None
+        self.cc = z3.BoolVal(True) if cc is None else cc
+        self.fc = z3.BoolVal(False) if fc is None else fc
+        if aid is None:
+            Rows._ids[0] += 1
+            aid = Rows._ids[0]
+        self.aid = IV(aid)
 
     @property
     def shape(self):
@@ -192,17 +231,63 @@ class Rows(Sym):
     def itemsize(self):
         return SInt(ISZ(self.dt))
 
+    @property
+    def flags(self):
+        return Flags(self)
+
     def _vc_len(self):
         return SInt(self.k)
 
+    def _colmajor(self):
+        """the rows one reads (row-major) from the COLUMN-major byte image.  ASSUMED library fact (sanity-tested): the two images
+        coincide when the array is empty or a row has one item (then there is a single axis of extent > 1); otherwise nothing is
+        known about the re-read rows (they are a permutation of the items: in general different rows)."""
+        val, k, aid = self.val, self.k, self.aid
+        same_img = z3.Or(k <= 0, Wf(self.tail) <= 1)
+        return Rows(k, lambda j: z3.If(same_img, val(j), COLMAJ(aid, j)), self.tail, self.dt, z3.BoolVal(True), z3.BoolVal(False))
+
+    def _logical(self):
+        return Rows(self.k, self.val, self.tail, self.dt, z3.BoolVal(True), z3.BoolVal(False))
+
     def tobytes(self, order='C'):
-        if order != 'C':
-            raise OutOfSubset('tobytes order %r' % (order,))
-        return DataBytes(self)
+        """ndarray.tobytes: 'C' = logical row-major bytes whatever the layout; 'F' = column-major; 'A' = column-major iff the
+        array is Fortran-contiguous and not C-contiguous ('K' = memory order: not modelled)"""
+        if order is None or order == 'C':
+            return DataBytes(self._logical())
+        if order == 'F':
+            return DataBytes(self._colmajor())
+        if order == 'A':
+            if cur().branch(z3.And(self.fc, z3.Not(self.cc))):
+                return DataBytes(self._colmajor())
+            return DataBytes(self._logical())
+        raise OutOfSubset('tobytes order %r' % (order,))
+
+    def copy(self, order='C'):
+        if order == 'C':
+            return self._logical()
+        raise OutOfSubset('ndarray.copy(order=%r)' % (order,))
+
+
+def arg_rows(k, val, tail, dtype):
+    """a batch handed in by the caller: arbitrary memory layout (C-ordered, Fortran-ordered / transposed view, strided)"""
+    Rows._ids[0] = 100
+    return Rows(k, val, tail, dtype, z3.Bool('a_c_contiguous'), z3.Bool('a_f_contiguous'), aid=1)
+
+
+def np_ascontiguousarray(a, dtype=None, **kw):
+    if isinstance(a, Rows) and dtype is None and not kw:
+        return a._logical()
+    raise OutOfSubset('np.ascontiguousarray(%s)' % type(a).__name__)
+
+
+def np_asfortranarray(a, dtype=None, **kw):
+    if isinstance(a, Rows) and dtype is None and not kw:
+        return Rows(a.k, a.val, a.tail, a.dt, z3.Or(a.k <= 0, Wf(a.tail) <= 1), z3.BoolVal(True))
+    raise OutOfSubset('np.asfortranarray(%s)' % type(a).__name__)
 
 
 class DataBytes(Sym):
-    """array.tobytes('C'): k rows of Wf(tail)*ISZ(dtype) bytes each"""
+    """bytes of an array image: k rows of Wf(tail)*ISZ(dtype) bytes each; rows.val(j) is the value a row-major reader sees in row j"""
 
     def __init__(self, rows):
         self.rows, self.t = rows, None
@@ -570,7 +655,7 @@ def np_module(g=None):
         if isinstance(shape, Shape) and isinstance(dtype, DType):
             return _Empty(dtype)
         raise OutOfSubset('np.empty')
-    extra = {'prod': prod, 'empty': empty}
+    extra = {'prod': prod, 'empty': empty, 'ascontiguousarray': np_ascontiguousarray, 'asfortranarray': np_asfortranarray}
     if g is not None:
         extra['memmap'] = np_memmap(g)
     return npspec.module(extra=extra)
@@ -819,7 +904,7 @@ class NpyContract(Contract):
         out = {}
         for nm in ('rows', 'disk_hdr_rows', 'disk_data_rows', 'H', 'length', 'k', 'pend_rows'):
             out[nm] = ev(z3.Int(nm))
-        for nm in ('pending', 'closed', 'memmap_none', 'fs_buffered'):
+        for nm in ('pending', 'closed', 'memmap_none', 'fs_buffered', 'a_c_contiguous', 'a_f_contiguous'):
             out[nm] = ev(z3.Bool(nm))
         out['row_items'] = ev(Wf(z3.Int('tail')))
         out['itemsize'] = ev(ISZ(z3.Int('dtype')))
@@ -880,7 +965,7 @@ class Append(NpyContract):
         new = lambda i: z3.If(i < g.n0, g.disk0(i), aval(i - g.n0))
         s.new = new
         g.future = [(g.n0 + k, new)]
-        return (Rows(k, lambda j: aval(j), at, ad),), {}
+        return (arg_rows(k, lambda j: aval(j), at, ad),), {}
 
     def pre(self, s):
         return [s.k >= 0, s.g.n0 + s.k <= MAXROWS]
@@ -1121,7 +1206,7 @@ class NpySetItem(NpyContract):
         s.new = new
         g.future = [(g.n0, new)]
         g.flush_content = lambda: (g.n0, g.c0)
-        return (slice(SInt(a), SInt(b)), Rows(kv, lambda j: vval(j), s.vt, s.vd)), {}
+        return (slice(SInt(a), SInt(b)), arg_rows(kv, lambda j: vval(j), s.vt, s.vd)), {}
 
     def pre(self, s):
         g = s.g
@@ -1185,7 +1270,7 @@ class InitFromArray(NpyContract):
         vc.fin_bounds.append(k)
         s.k = k
         aval = z3.Function('a_row', I, I)
-        return s, (o, Rows(k, lambda j: aval(j), g.tail, g.dtype)), {}
+        return s, (o, arg_rows(k, lambda j: aval(j), g.tail, g.dtype)), {}
 
     def requires(self, s):
         g = s.g
@@ -1327,7 +1412,7 @@ class StoreContract(Contract):
         arr = ArrayModel(L, c0, tail, dt, z3.BoolVal(False), self.has_clear)
         o = StoreSelf(arr, bs, nb, self.stubs)
         dval = z3.Function('data_row', I, I)
-        data = Rows(z3.Int('data_rows'), lambda j: dval(j), z3.Int('data_tail'), z3.Int('data_dtype'))
+        data = arg_rows(z3.Int('data_rows'), lambda j: dval(j), z3.Int('data_tail'), z3.Int('data_dtype'))
         s = NS(o=o, arr=arr, L=L, bs=bs, nb=nb, i=i, m=m, c0=c0, data=data, dval=dval)
         vc.fin_bounds.extend([L, bs, nb, i, m, data.k])
         a = self.args(s)
@@ -1517,8 +1602,380 @@ class NDel(StoreContract):
                 ('store_ok', self.store_ok(s, nb2, arr.L))]
 
 
+# ------------------------------------------------------------------------------------------------ file names, os.path, open(): reopen / unpickle / delete
+B = z3.BoolSort()
+P_EXISTS = z3.Function('path_exists', I, B)         # os.path.exists at entry (the file system is an oracle: an arbitrary predicate over paths)
+P_BASE = z3.Function('path_basename', I, I)         # os.path.basename
+P_ENDS = z3.Function('path_ends_with_npy', I, B)    # p[-4:] == '.npy'
+P_CAT = z3.Function('path_plus_npy', I, I)          # p + '.npy'
+
+
+def with_npy(p):
+    """the file name an NpyArray made from `p` is bound to (statement of NpyArray.__init__: '.npy' is appended unless already there)"""
+    return z3.If(P_ENDS(p), p, P_CAT(p))
+
+
+def path_facts(p):
+    """ASSUMED str / os.path facts (sanity-tested), as explicit instances: p + '.npy' ends with '.npy'; the base name of a name that
+    ends with '.npy' ends with '.npy'"""
+    return z3.And(P_ENDS(P_CAT(p)), z3.Implies(P_ENDS(p), P_ENDS(P_BASE(p))), P_ENDS(P_CAT(P_BASE(p))))
+
+
+class Suffix4(Sym):
+    """p[-4:]"""
+
+    def __init__(self, p):
+        self.p, self.t = p, None
+
+    def __eq__(self, o):
+        if isinstance(o, str) and o == '.npy':
+            return SBool(P_ENDS(self.p))
+        raise OutOfSubset('file name suffix compared with %r' % (o,))
+
+    def __ne__(self, o):
+        return ~self.__eq__(o)
+
+    __hash__ = Sym.__hash__
+
+
+class SPath(Sym):
+    """a file name (str): an opaque path id"""
+
+    def __init__(self, t):
+        self.t = t
+
+    def __getitem__(self, k):
+        if isinstance(k, slice) and (k.start, k.stop, k.step) == (-4, None, None):
+            return Suffix4(self.t)
+        raise OutOfSubset('file name index %r' % (k,))
+
+    def endswith(self, suf):
+        if suf == '.npy':
+            return SBool(P_ENDS(self.t))
+        raise OutOfSubset('file name .endswith(%r)' % (suf,))
+
+    def __add__(self, o):
+        if isinstance(o, str) and o == '.npy':
+            cur().assume(path_facts(self.t))
+            return SPath(P_CAT(self.t))
+        raise OutOfSubset('file name + %r' % (o,))
+
+    def __eq__(self, o):
+        if isinstance(o, SPath):
+            return SBool(self.t == o.t)
+        raise OutOfSubset('file name compared with %s' % type(o).__name__)
+
+    def __ne__(self, o):
+        return ~self.__eq__(o)
+
+    __hash__ = Sym.__hash__
+
+    def __bool__(self):
+        return True
+
+    def __format__(self, spec):
+        return '<path>'
+
+    def __str__(self):
+        return '<path>'
+
+
+class World:
+    """ghost file system: which paths exist (oracle at entry + creations / removals in program order) and what the code did to it"""
+
+    def __init__(self):
+        self.exists = lambda p: P_EXISTS(p)
+        self.opened, self.removed, self.queried = [], [], []
+
+    def set_exists(self, p, val):
+        old = self.exists
+        self.exists = lambda q: z3.If(q == p, z3.BoolVal(val), old(q))
+
+
+def _path(x, what):
+    if not isinstance(x, SPath):
+        raise OutOfSubset('%s(%s)' % (what, type(x).__name__))
+    return x.t
+
+
+class OsSpec:
+    """the `os` module as elfi/store.py uses it for array files"""
+
+    def __init__(self, w):
+        self._w = w
+        self.path = self
+
+    def exists(self, p):
+        t = _path(p, 'os.path.exists')
+        self._w.queried.append(t)
+        return SBool(self._w.exists(t))
+
+    def basename(self, p):
+        t = _path(p, 'os.path.basename')
+        cur().assume(path_facts(t))
+        return SPath(P_BASE(t))
+
+    def remove(self, p):
+        t = _path(p, 'os.remove')
+        w = self._w
+        if not cur().branch(w.exists(t)):
+            raise program_exception(FileNotFoundError('os.remove: no such file'))
+        for fs in w.opened:
+            cur().oblige('call-pre[os.remove: the file object on that path is closed first (header flushed; required on some platforms)]',
+                         z3.Implies(fs[0] == t, fs[2]._closed))
+        w.removed.append(t)
+        w.set_exists(t, False)
+
+    def __getattr__(self, k):
+        raise OutOfSubset('os.%s is not modelled' % k)
+
+
+def open_spec(g, w):
+    """builtin open() for the array file.  'r+b': the file must exist (else FileNotFoundError), cursor at 0, content untouched;
+    'w+b': the file is created or emptied"""
+    def open_(name, mode='r', *a, **kw):
+        t = _path(name, 'open')
+        if a or kw or mode not in ('r+b', 'w+b', 'rb+', 'wb+'):
+            raise OutOfSubset('open(..., %r, ...)' % (mode,))
+        vc = cur()
+        if mode in ('r+b', 'rb+'):
+            if not vc.branch(w.exists(t)):
+                raise program_exception(FileNotFoundError('open: no such file'))
+        else:
+            w.set_exists(t, True)
+            g.disk = Disk(IV(-1), IV(-1), IV(-1), IV(-1), IV(0), g.c0)       # empty file: no header at all
+        fs = FileSpec(g, z3.BoolVal(False), IV(0), name=SPath(t))
+        w.opened.append((t, 'r+b' if mode[0] == 'r' else 'w+b', fs))
+        return fs
+    return open_
+
+
+def file_pre(g):
+    """an existing array file is one a store left behind after a completed flush / close (Flush / Close / GetState posts): it loads,
+    its header has the fixed oversized length"""
+    return z3.And(g.loads(), g.H >= 13, g.H == HLEN(MAXROWS, g.tail, g.dtype), Wf(g.tail) >= 1, ISZ(g.dtype) >= 1, g.hdr0 <= MAXROWS)
+
+
+def spec_init_from_file_header(o):
+    """callee contract of NpyArray._init_from_file_header (proved by InitFromFileHeader)"""
+    vc, g = cur(), o._g
+    vc.libcall('stub:_init_from_file_header', ())
+    fs = o.__dict__.get('fs')
+    if not isinstance(fs, FileSpec):
+        raise OutOfSubset('_init_from_file_header before the file is opened')
+    unset = all(o.__dict__.get(k, 0) is None for k in ('header_length', 'itemsize', 'shape', 'dtype', '_header_bytes_to_write'))
+    vc.oblige('call-pre[_init_from_file_header: a freshly opened file (cursor 0, open), no field set yet]',
+              z3.And(z3.BoolVal(unset), z3.Not(fs._closed), fs.pos == 0))
+    vc.oblige('call-pre[_init_from_file_header: the file is a loadable .npy file with the fixed-length header]', file_pre(g))
+    d = g.disk
+    o.shape, o.dtype = Shape(d.hdr_rows, Tail(d.hdr_tail)), DType(d.hdr_dtype)
+    o.header_length, o.itemsize = SIntB(g.H), SInt(ISZ(g.dtype))
+    fs.pos = d.prefix_H
+    g.ops.append('stub:_init_from_file_header')
+
+
+def spec_close(o):
+    """callee contract of NpyArray.close (proved by Close)"""
+    vc, g, d = cur(), o._g, o._g.disk
+    vc.libcall('stub:close', ())
+    for nm, f in npy_ok(o, g):
+        vc.oblige('call-pre[close: %s]' % nm, f)
+    if vc.branch(o.fs._closed):
+        return
+    d.hdr_rows = o.shape.rows
+    o._header_bytes_to_write = None
+    o.fs._closed = z3.BoolVal(True)
+    o.fs.dirty = z3.BoolVal(False)
+    g.hist = [(o.shape.rows, d.content)]
+    o._memmap = None
+    g.ops.append('stub:close')
+
+
+METHOD_SPECS['_init_from_file_header'] = spec_init_from_file_header
+METHOD_SPECS['close'] = spec_close
+
+
+class Init(NpyContract):
+    """NpyArray.__init__(filename) / (filename, truncate=True): reopen of an existing file, or creation of a new, empty one.
+    No crash obligations (nothing is written; with truncate=True the content is discarded on purpose)."""
+    target = 'elfi/store.py::NpyArray.__init__'
+    crash = False
+    stubs = ('_init_from_file_header',)
+
+    def __init__(self, truncate):
+        self.truncate = truncate
+        self.label = 'truncate=True' if truncate else 'reopen or create'
+
+    def env(self, vc):
+        e = NpyContract.env(self, vc)
+        e.update({'os': OsSpec(self._w), 'open': open_spec(self._g, self._w)})
+        return e
+
+    def setup(self, vc):
+        g = Ghost(vc, crash=False)
+        self._g, self._w = g, World()
+        o = NpySelf(g, self.stubs)            # no field set: __init__ sets them all
+        g.hist = [(g.hdr0, g.c0)]
+        fn = z3.Int('filename')
+        s = NS(g=g, o=o, w=self._w, fn=fn, W=with_npy(fn), ex=P_EXISTS(with_npy(fn)))
+        return s, (o, SPath(fn)), ({'truncate': True} if self.truncate else {})
+
+    def requires(self, s):
+        return [path_facts(s.fn), z3.Implies(s.ex, file_pre(s.g)), s.g.R >= 1]
+
+    def ensures(self, s, result):
+        o, g, w, d = s.o, s.g, s.w, s.g.disk
+        fnm, fs = o.__dict__.get('filename'), o.__dict__.get('fs')
+        if not isinstance(fnm, SPath) or not isinstance(fs, FileSpec) or not isinstance(fs.name, SPath):
+            return [('the store is bound to an open file', z3.BoolVal(False))]
+        one = len(w.opened) == 1
+        mode = w.opened[0][1] if one else None
+        reopened = (isinstance(o.shape, Shape) and '_memmap' in o.__dict__ and o._memmap is None and mode == 'r+b')
+        created = (all(o.__dict__.get(k, 0) is None for k in ('header_length', 'itemsize', 'shape', 'dtype', '_header_bytes_to_write', '_memmap'))
+                   and mode == 'w+b' and o.fortran_order is False)
+        out = [("the store is bound to the named file: filename (+ '.npy' unless it ends with it)", z3.And(fnm.t == s.W, fs.name.t == s.W)),
+               ('exactly that one file is opened, nothing is removed', z3.And(z3.BoolVal(one and not w.removed), (w.opened[0][0] == s.W) if one else z3.BoolVal(False))),
+               ('the file object is open', z3.Not(fs._closed))]
+        if self.truncate:
+            out.append(('truncate=True: the file is emptied and the store is uninitialised (reports no rows)', z3.And(z3.BoolVal(created), d.data_rows == 0)))
+            return out
+        re_f = z3.BoolVal(False)
+        if reopened:
+            re_f = z3.And([f for _, f in self.inv_post(s)] +
+                          [o.shape.rows == g.hdr0, d.hdr_rows == g.hdr0, d.data_rows == g.data0,
+                           forall_range(0, g.data0, lambda i: d.content(i) == g.disk0(i), 'r')])
+        out += [('reopening an existing file: the store reports exactly the rows the file shows (header rows), the file is untouched, npy_ok holds',
+                 z3.Implies(s.ex, re_f)),
+                ('no such file: a new, empty file of that name is created and the store is uninitialised (reports no rows)',
+                 z3.Implies(z3.Not(s.ex), z3.And(z3.BoolVal(created), d.data_rows == 0)))]
+        return out
+
+    def witness(self, vc, model, ob):
+        ev = lambda t: str(model.eval(t, model_completion=True))
+        return {'obligation': ob.kind, 'filename_ends_with_npy': ev(P_ENDS(z3.Int('filename'))), 'file_exists': ev(P_EXISTS(with_npy(z3.Int('filename')))),
+                'disk_hdr_rows': ev(z3.Int('disk_hdr_rows')), 'disk_data_rows': ev(z3.Int('disk_data_rows'))}
+
+
+class _InitRec:
+    """`self` while unpickling: pickle creates the object WITHOUT calling __init__, so it has no attribute at all; `self.__init__`
+    is NpyArray.__init__ under its contract (Init): binds the object to filename(+'.npy'), reopening the file if it exists and
+    creating an empty one otherwise"""
+
+    def __init__(self, filename, array=None, truncate=False):
+        w = self._w
+        cur().libcall('stub:__init__', ())
+        t = _path(filename, 'NpyArray.__init__')
+        cur().assume(path_facts(t))
+        bound = with_npy(t)
+        self._inits.append((bound, array, truncate, w.exists(bound)))
+        w.set_exists(bound, True)          # reopened if it existed, created (empty) otherwise
+        self.filename = SPath(bound)
+        self.fs = ('open file object', bound)
+
+    def __getattr__(self, k):
+        if k.startswith('_vc') or k.startswith('__'):
+            raise AttributeError(k)
+        raise OutOfSubset('NpyArray.%s is read while unpickling, before __init__ ran (the object has no attributes yet)' % k)
+
+
+class SetState(Contract):
+    """NpyArray.__setstate__: which file the unpickled store is bound to.  The file system is an oracle (os.path.exists arbitrary)."""
+    target = 'elfi/store.py::NpyArray.__setstate__'
+    prop = 'C06'
+    fin = 3
+
+    def env(self, vc):
+        return {'os': OsSpec(self._w)}
+
+    def setup(self, vc):
+        w = World()
+        self._w = w
+        o = object.__new__(_InitRec)
+        o.__dict__['_w'] = w
+        o.__dict__['_inits'] = []
+        fn = z3.Int('pickled_filename')
+        s = NS(o=o, w=w, fn=fn, base=P_BASE(fn), state={'filename': SPath(fn)})
+        return s, (o, s.state), {}
+
+    def requires(self, s):
+        # the pickled name is `self.filename` of a live NpyArray: __init__ made it end with '.npy' (Init post + GetState post)
+        return [P_ENDS(s.fn), path_facts(s.fn)]
+
+    def raises(self, s):
+        o = s.o
+        return {'FileNotFoundError': z3.And(z3.Not(P_EXISTS(s.fn)), z3.Not(P_EXISTS(s.base)),
+                                            z3.BoolVal('fs' in o.__dict__ and o.__dict__['fs'] is None and not o._inits and not s.w.removed))}
+
+    def iff_raises(self, s):
+        return [('normal return only if the pickled path or its base name in the working directory exists', z3.Or(P_EXISTS(s.fn), P_EXISTS(s.base)))]
+
+    def ensures(self, s, result):
+        o = s.o
+        ini = o._inits
+        if len(ini) != 1:
+            return [('the store is initialised exactly once', z3.BoolVal(False))]
+        bound, array, truncate, existed = ini[0]
+        return [('the store is initialised exactly once, as a reopen (no array, no truncation), nothing is removed',
+                 z3.BoolVal(array is None and truncate is False and not s.w.removed)),
+                ('the unpickled store is bound to the PICKLED path whenever that file exists', z3.Implies(P_EXISTS(s.fn), bound == s.fn)),
+                ('it is bound to the base name in the working directory only when the pickled path does not exist (and the base name does)',
+                 z3.Implies(z3.Not(P_EXISTS(s.fn)), z3.And(bound == s.base, P_EXISTS(s.base)))),
+                ('the file it is bound to existed: unpickling never creates an (empty) array file', existed)]
+
+    def witness(self, vc, model, ob):
+        ev = lambda t: str(model.eval(t, model_completion=True))
+        fn = z3.Int('pickled_filename')
+        return {'obligation': ob.kind, 'pickled_path_exists': ev(P_EXISTS(fn)), 'base_name_exists_in_cwd': ev(P_EXISTS(P_BASE(fn))),
+                'base_name_is_the_pickled_path': ev(P_BASE(fn) == fn)}
+
+
+class Delete(NpyContract):
+    """NpyArray.delete: closes, removes exactly the store's own file, invalidates the object; a no-op on a deleted array"""
+    target = 'elfi/store.py::NpyArray.delete'
+    crash = False
+    stubs = ('close',)
+
+    def __init__(self, live):
+        self.live = live
+        self.label = 'live array' if live else 'already deleted'
+
+    def env(self, vc):
+        e = NpyContract.env(self, vc)
+        e['os'] = OsSpec(self._w)
+        return e
+
+    def setup(self, vc):
+        s, a, kw = NpyContract.setup(self, vc)
+        w = World()
+        self._w = w
+        s.w, s.name = w, z3.Int('file_name')
+        if self.live:
+            s.o.fs.name = SPath(s.name)
+            w.opened.append((s.name, 'r+b', s.o.fs))
+            s.fs0 = s.o.fs
+        else:
+            s.o.fs = None
+            s.o.header_length = None
+            s.o._memmap = None
+        return s, a, kw
+
+    def requires(self, s):
+        if not self.live:
+            return []
+        return NpyContract.requires(self, s) + [P_EXISTS(s.name)]
+
+    def ensures(self, s, result):
+        o, w = s.o, s.w
+        gone = z3.BoolVal(o.fs is None and o.header_length is None and o._memmap is None)
+        if not self.live:
+            return [('deleting a deleted array does nothing', z3.And(gone, z3.BoolVal(not w.removed and not s.g.ops)))]
+        return [("exactly the store's own file is removed", z3.And(z3.BoolVal(len(w.removed) == 1), (w.removed[0] == s.name) if w.removed else z3.BoolVal(False))),
+                ('the file object was closed', s.fs0._closed),
+                ('the object is invalidated (deleted, uninitialised, no memmap)', gone)]
+
+
 CONTRACTS = [PropSize(), PropLen(), PropClosed(), PropInitialized(),
-             Append(), Truncate(), Clear(), Flush(), Close(), GetState(), PropMemmap(), NpyGetItem(), NpySetItem(), PrepareHeader(), WriteHeader(), WriteHeader(True), InitFromFileHeader(), InitFromArray(),
+             Append(), Truncate(), Clear(), Flush(), Close(), GetState(), PropMemmap(), NpyGetItem(), NpySetItem(), PrepareHeader(), WriteHeader(), WriteHeader(True), InitFromFileHeader(), InitFromArray(), Init(False), Init(True), SetState(), Delete(True), Delete(False),
              AToSlice(), ALen(), AContains(), AGet(), ASet(), ADel(), AClear(True), AClear(False), NSet(), NDel()]
 
 TRUSTED_BASE = ['file object (io.BufferedRandom) model A-IO: seek/write/truncate/flush/close are atomic, applied in program order; written bytes may stay '
@@ -1559,6 +2016,11 @@ _replay_cache = {}
 def replay_refuted(cname, rf):
     """a refuted obligation: look for a failing native input (operation sequence, optionally with a kill point) on the real code"""
     from bounded import c06 as b
+    meth = cname.split('[')[0].split('.')[-1]
+    if meth in ('__setstate__', '__init__', 'delete'):
+        if ('fs', meth) not in _replay_cache:
+            _replay_cache[('fs', meth)] = b.search_fs(cname)
+        return _replay_cache[('fs', meth)]
     crash = rf['kind'].startswith('crash') or 'npy_ok' in rf['kind'] or 'crash invariant' in rf['kind']
     key = (cname.split('[')[0], crash)
     if key not in _replay_cache:
